@@ -16,9 +16,11 @@ for d in sorted(glob.glob("/verif/seeded/*")):
         print(name, "seedtest failed:", (r.stdout + r.stderr)[-300:])
         bad.append(name)
         continue
-    meta.update(check_exit_with_patch=res["check_exit"], check_lines=res["check_lines"], demo_exit_patched=res["demo_exit_patched"],
-                demo_exit_clean=res["demo_exit_clean"])
-    json.dump(meta, open(os.path.join(d, "meta.json"), "w"), indent=1)
+    if os.environ.get("VERIF_SEED", "0") in ("", "0"):
+        # the recorded verdict is the one under the default seed; runs under other seeds only report
+        meta.update(check_exit_with_patch=res["check_exit"], check_lines=res["check_lines"], demo_exit_patched=res["demo_exit_patched"],
+                    demo_exit_clean=res["demo_exit_clean"])
+        json.dump(meta, open(os.path.join(d, "meta.json"), "w"), indent=1)
     print(name, "check_exit", res["check_exit"], "demo", res["demo_exit_patched"], res["demo_exit_clean"], f"{res['check_s']}s", flush=True)
     if res["check_exit"] != 1 and "MISSED" not in name:
         bad.append(name)
